@@ -138,7 +138,7 @@ CHILD_CLASSES = [
     {"self_exit": 5, "ignore_all": True},                                            # exits quickly by itself
     {"self_exit": 60, "ignore_all": True},                                           # exits exactly at a 50 ms grace deadline after a stop at 10
 ]
-SIGS = ["Terminate", "Terminate", "Interrupt", "Hangup", "User1", 40, 0]
+SIGS = ["Terminate", "Terminate", "Interrupt", "Hangup", "User1", "ForceStop", 40, 0]
 OPS = ["start", "stop", "stop_with_signal", "restart", "restart_with_signal", "try_restart", "try_restart_with_signal",
        "signal", "to_wait", "run", "run_async", "set_hook", "unset_hook", "delete", "delete_now"]
 
@@ -219,7 +219,7 @@ def run_histories(tag, cases, variant="fixed"):
 ALPHABET = [
     {"op": "start"}, {"op": "stop"}, {"op": "stop_with_signal", "sig": "Terminate", "grace": 50},
     {"op": "restart"}, {"op": "restart_with_signal", "sig": "Terminate", "grace": 50}, {"op": "try_restart"},
-    {"op": "try_restart_with_signal", "sig": "Terminate", "grace": 50}, {"op": "signal", "sig": "Terminate"},
+    {"op": "try_restart_with_signal", "sig": "Terminate", "grace": 50}, {"op": "signal", "sig": "Terminate"}, {"op": "signal", "sig": "ForceStop"},
     {"op": "to_wait"}, {"op": "run"}, {"op": "run_async", "dur": 30}, {"op": "set_hook"}, {"op": "delete"}, {"op": "delete_now"},
     {"op": "raw", "ctrl": "ContinueTryGracefulRestart", "prio": 0}, {"op": "raw", "ctrl": "NextEnding", "prio": 2}, {"op": "raw", "ctrl": "Start", "prio": 1},
 ]
@@ -280,7 +280,7 @@ def job_check(P, tier, seed, monitor, extra_cases=None):
               "times chosen to collide with timers and child exits, against 8 child behaviour classes and spawn / signal / kill faults, "
               "on the real start_job task (paused tokio clock, simulated child via the public spawn hook). The implementation's event log "
               "and ticket resolution times must be one of the outcomes the Coq model allows. Sources: regression corpus, a bounded-exhaustive "
-              "slice over the 17-op alphabet (14 API calls + 3 raw controls), random histories. non-trivial = distinct histories with a spawn and at least one of "
+              "slice over the 18-op alphabet (15 API calls + 3 raw controls), random histories. non-trivial = distinct histories with a spawn and at least one of "
               "{graceful control, fault, burst, same-instant tie}")
     r = rng(seed, "job:" + P.pid)
     cases = corpus_cases()
@@ -321,7 +321,9 @@ def job_check(P, tier, seed, monitor, extra_cases=None):
         if o.get("harness_panic"):
             c.errors.append("harness panicked on " + json.dumps(case)[:300])
             continue
-        if impl in ms:
+        if case.get("monitor_only"):
+            c.count("monitor-only(" + case["monitor_only"] + ")")
+        elif impl in ms:
             c.validated += 1
         else:
             c.disagreements.append({"case": case, "impl": impl, "model": ms[:4], "what": "job task trace not among the model's outcomes"})
